@@ -38,6 +38,14 @@ func runChain(t *testing.T, r *Rng, em *Emitter, opts roundOpts, rounds int, emi
 				in := buildRound(w.n, w.f, w.digest, seq, w.prev, raws, oracles)
 				em.Hit(fmt.Sprintf("n=%d,f=%d", w.n, w.f))
 				em.Hit(fmt.Sprintf("obs=%d", len(gobs)))
+				if r.Chance(8) {
+					// the same observations on top of a previous outcome that Outcome must refuse: no outcome, and no trace
+					// of the refused call in the evaluation that follows
+					if bad, ok := badPrevVariant(r, in, w.prev); ok {
+						em.Hit("prev=" + bad.PrevMode)
+						emit(node, w, bad)
+					}
+				}
 				emit(node, w, in)
 				seq += uint64(r.Range(1, 12))
 				w.height += uint64(r.Range(0, 3))
@@ -327,10 +335,7 @@ func evalRound(node *Node, in JRound, times int) (impl JRoundImpl, evals []strin
 		for _, o := range in.Obs {
 			aos = append(aos, ocr2plustypes.AttributedObservation{Observation: unhx(o.Raw), Observer: commontypes.OracleID(o.Oracle)})
 		}
-		var prevBytes []byte
-		if in.Prev != nil {
-			prevBytes = must(fromJOutcome(*in.Prev).Encode())
-		}
+		prevBytes := prevBytesOf(in)
 		cctx, cancel := context.WithCancel(context.Background())
 		cancel()
 		if b, err := node.Plugin.Outcome(cctx, ocr3types.OutcomeContext{SeqNr: in.Seq, PreviousOutcome: prevBytes}, nil, aos); err == nil {
